@@ -220,6 +220,71 @@ theorem fresh_attrs_ok {store : List Int} {ax : Axis} (h : AxisOK store ax) (sam
   · show sget _ (store.length + 1) ≠ 0 → ∃ u', ax.rate = rateOf u' (sget _ (store.length + 1))
     rw [sget_new1]; exact h.2.2.2.2.2
 
+/-- a 1-d operand of two or more elements (uniformity check, length check, collapse check) -/
+theorem rampOp_ok (s : State) (h : Inv s) (sgn : Int) (al : Bool) (x y : Int) (rest : List Int) :
+    Inv (rampOp fixed s sgn al (x :: y :: rest)).1 ∧
+    abs (rampOp fixed s sgn al (x :: y :: rest)).1 = absRamp (abs s) sgn (x :: y :: rest) ∧
+    ((rampOp fixed s sgn al (x :: y :: rest)).2 ≠ none → (rampOp fixed s sgn al (x :: y :: rest)).1 = s) ∧
+    Frame s (rampOp fixed s sgn al (x :: y :: rest)).1 := by
+  cases hr : rampStep (x :: y :: rest) with
+  | error e =>
+    have : rampOp fixed s sgn al (x :: y :: rest) = (s, some e) := by simp only [rampOp, hr]
+    rw [this]
+    refine ⟨h, ?_, fun _ => rfl, frame_refl s⟩
+    simp only [absRamp, hr]
+  | ok d =>
+    have : rampOp fixed s sgn al (x :: y :: rest)
+        = shiftOp fixed s sgn (some (x :: y :: rest)) ((x :: y :: rest).headD 0) d := by
+      simp only [rampOp, hr, fixed, Bool.false_and, Bool.false_eq_true, if_false]
+    rw [this]
+    have hro := rampStep_ok hr
+    have hsp := shiftOp_fixed_spec s h sgn (some (x :: y :: rest)) ((x :: y :: rest).headD 0) d
+      (by intro vs hvs; cases hvs; exact hro.1) (by intro hn; cases hn)
+    refine ⟨hsp.1, ?_, hsp.2.2.1, hsp.2.2.2.2⟩
+    by_cases hfit : (x :: y :: rest).length = s.cur.samples.length
+    · cases hcol : collapses (sget s.store s.cur.dt) (sgn * d) with
+      | false =>
+        have hnone := hsp.2.2.2.1.mpr ⟨(by intro vs hvs; cases hvs; exact hfit), hcol⟩
+        rw [hsp.2.1 hnone]
+        have hcol' : collapses (abs s).dt (sgn * d) = false := hcol
+        have hfit' : (x :: y :: rest).length = (abs s).n := hfit
+        simp only [absRamp, hr, hfit', if_true, hcol', Bool.false_eq_true, if_false]
+      | true =>
+        have hsome : (shiftOp fixed s sgn (some (x :: y :: rest)) ((x :: y :: rest).headD 0) d).2 ≠ none := by
+          intro hn
+          have := (hsp.2.2.2.1.mp hn).2
+          rw [hcol] at this
+          cases this
+        rw [hsp.2.2.1 hsome]
+        have hcol' : collapses (abs s).dt (sgn * d) = true := hcol
+        have hfit' : (x :: y :: rest).length = (abs s).n := hfit
+        simp only [absRamp, hr, hfit', if_true, hcol']
+    · have hsome : (shiftOp fixed s sgn (some (x :: y :: rest)) ((x :: y :: rest).headD 0) d).2 ≠ none := by
+        intro hn; exact hfit ((hsp.2.2.2.1.mp hn).1 _ rfl)
+      rw [hsp.2.2.1 hsome]
+      have hfit' : ¬ (x :: y :: rest).length = (abs s).n := hfit
+      simp only [absRamp, hr, hfit', if_false]
+
+/-- any 1-d operand: empty (refused), one element (a shift), two or more (`rampOp_ok`) -/
+theorem rampDispatch_ok (s : State) (h : Inv s) (sgn : Int) (al : Bool) (vals : List Int) :
+    Inv (rampDispatch fixed s sgn al vals).1 ∧
+    abs (rampDispatch fixed s sgn al vals).1 = absRamp (abs s) sgn vals ∧
+    ((rampDispatch fixed s sgn al vals).2 ≠ none → (rampDispatch fixed s sgn al vals).1 = s) ∧
+    Frame s (rampDispatch fixed s sgn al vals).1 := by
+  match vals with
+  | [] => exact ⟨h, rfl, fun _ => rfl, frame_refl s⟩
+  | [v] =>
+    have hsp := shiftOp_fixed_spec s h sgn none v 0 (by intro vs hvs; cases hvs) (fun _ => rfl)
+    have hnone : (shiftOp fixed s sgn none v 0).2 = none :=
+      hsp.2.2.2.1.mpr ⟨(by intro vs hvs; cases hvs), (by simp [collapses])⟩
+    refine ⟨hsp.1, ?_, hsp.2.2.1, hsp.2.2.2.2⟩
+    show abs (shiftOp fixed s sgn none v 0).1 = _
+    rw [hsp.2.1 hnone]
+    apply abs_ext <;> simp [absRamp]
+  | x :: y :: rest => exact rampOp_ok s h sgn al x y rest
+
+theorem abs_samples {s : State} (h : Inv s) : absSamples (abs s) = s.cur.samples := h.1.2.2.2.1.symm
+
 theorem step_ok (s : State) (h : Inv s) (op : Op) : StepOK s op (step fixed s op) := by
   have hcur := h.1
   have hsam := hcur.2.2.2.1
@@ -241,79 +306,17 @@ theorem step_ok (s : State) (h : Inv s) (op : Op) : StepOK s op (step fixed s op
     rw [hsp.2.1 hnone]
     apply abs_ext <;> simp [absStep, abs_unit] <;> ring
   | addR r =>
-    cases hr : rampStep (convRamp s.cur.unit r) with
-    | error e =>
-      have : step fixed s (.addR r) = (s, some e) := by simp only [step, hr]
-      rw [this]
-      refine ⟨h, ?_, fun _ => rfl, frame_refl s⟩
-      simp only [absStep, abs_unit, hr]
-    | ok d =>
-      have : step fixed s (.addR r)
-          = shiftOp fixed s 1 (some (convRamp s.cur.unit r)) ((convRamp s.cur.unit r).headD 0) d := by
-        simp only [step, hr]
-      rw [this]
-      have hro := rampStep_ok hr
-      have hsp := shiftOp_fixed_spec s h 1 (some (convRamp s.cur.unit r)) ((convRamp s.cur.unit r).headD 0) d
-        (by intro vs hvs; cases hvs; exact hro.1) (by intro hn; cases hn)
-      refine ⟨hsp.1, ?_, hsp.2.2.1, hsp.2.2.2.2⟩
-      by_cases hfit : (convRamp s.cur.unit r).length = s.cur.samples.length
-      · cases hcol : collapses (sget s.store s.cur.dt) (1 * d) with
-        | false =>
-          have hnone := hsp.2.2.2.1.mpr ⟨(by intro vs hvs; cases hvs; exact hfit), hcol⟩
-          rw [hsp.2.1 hnone]
-          have hcol' : collapses (abs s).dt (1 * d) = false := hcol
-          simp only [absStep, abs_unit, hr, abs_n, hfit, if_true, hcol', Bool.false_eq_true, if_false]
-          apply abs_ext <;> simp
-        | true =>
-          have hsome : (shiftOp fixed s 1 (some (convRamp s.cur.unit r)) ((convRamp s.cur.unit r).headD 0) d).2 ≠ none := by
-            intro hn
-            have := (hsp.2.2.2.1.mp hn).2
-            rw [hcol] at this
-            cases this
-          rw [hsp.2.2.1 hsome]
-          have hcol' : collapses (abs s).dt (1 * d) = true := hcol
-          simp only [absStep, abs_unit, hr, abs_n, hfit, if_true, hcol']
-      · have hsome : (shiftOp fixed s 1 (some (convRamp s.cur.unit r)) ((convRamp s.cur.unit r).headD 0) d).2 ≠ none := by
-          intro hn; exact hfit ((hsp.2.2.2.1.mp hn).1 _ rfl)
-        rw [hsp.2.2.1 hsome]
-        simp only [absStep, abs_unit, hr, abs_n, hfit, if_false]
+    have hd := rampDispatch_ok s h 1 r.aliased (convRamp s.cur.unit s.cur.samples r)
+    refine ⟨hd.1, ?_, hd.2.2.1, hd.2.2.2⟩
+    show abs (rampDispatch fixed s 1 r.aliased (convRamp s.cur.unit s.cur.samples r)).1
+      = absRamp (abs s) 1 (convRamp (abs s).unit (absSamples (abs s)) r)
+    rw [abs_samples h, abs_unit]; exact hd.2.1
   | subR r =>
-    cases hr : rampStep (convRamp s.cur.unit r) with
-    | error e =>
-      have : step fixed s (.subR r) = (s, some e) := by simp only [step, hr]
-      rw [this]
-      refine ⟨h, ?_, fun _ => rfl, frame_refl s⟩
-      simp only [absStep, abs_unit, hr]
-    | ok d =>
-      have : step fixed s (.subR r)
-          = shiftOp fixed s (-1) (some (convRamp s.cur.unit r)) ((convRamp s.cur.unit r).headD 0) d := by
-        simp only [step, hr]
-      rw [this]
-      have hro := rampStep_ok hr
-      have hsp := shiftOp_fixed_spec s h (-1) (some (convRamp s.cur.unit r)) ((convRamp s.cur.unit r).headD 0) d
-        (by intro vs hvs; cases hvs; exact hro.1) (by intro hn; cases hn)
-      refine ⟨hsp.1, ?_, hsp.2.2.1, hsp.2.2.2.2⟩
-      by_cases hfit : (convRamp s.cur.unit r).length = s.cur.samples.length
-      · cases hcol : collapses (sget s.store s.cur.dt) (-1 * d) with
-        | false =>
-          have hnone := hsp.2.2.2.1.mpr ⟨(by intro vs hvs; cases hvs; exact hfit), hcol⟩
-          rw [hsp.2.1 hnone]
-          have hcol' : collapses (abs s).dt (-1 * d) = false := hcol
-          simp only [absStep, abs_unit, hr, abs_n, hfit, if_true, hcol', Bool.false_eq_true, if_false]
-          apply abs_ext <;> simp <;> ring
-        | true =>
-          have hsome : (shiftOp fixed s (-1) (some (convRamp s.cur.unit r)) ((convRamp s.cur.unit r).headD 0) d).2 ≠ none := by
-            intro hn
-            have := (hsp.2.2.2.1.mp hn).2
-            rw [hcol] at this
-            cases this
-          rw [hsp.2.2.1 hsome]
-          have hcol' : collapses (abs s).dt (-1 * d) = true := hcol
-          simp only [absStep, abs_unit, hr, abs_n, hfit, if_true, hcol']
-      · have hsome : (shiftOp fixed s (-1) (some (convRamp s.cur.unit r)) ((convRamp s.cur.unit r).headD 0) d).2 ≠ none := by
-          intro hn; exact hfit ((hsp.2.2.2.1.mp hn).1 _ rfl)
-        rw [hsp.2.2.1 hsome]
-        simp only [absStep, abs_unit, hr, abs_n, hfit, if_false]
+    have hd := rampDispatch_ok s h (-1) r.aliased (convRamp s.cur.unit s.cur.samples r)
+    refine ⟨hd.1, ?_, hd.2.2.1, hd.2.2.2⟩
+    show abs (rampDispatch fixed s (-1) r.aliased (convRamp s.cur.unit s.cur.samples r)).1
+      = absRamp (abs s) (-1) (convRamp (abs s).unit (absSamples (abs s)) r)
+    rw [abs_samples h, abs_unit]; exact hd.2.1
   | mul k =>
     by_cases hk : k = 0
     · have : step fixed s (.mul k) = (s, some .valueError) := by
@@ -513,20 +516,48 @@ theorem rejected_ops_leave_unchanged {s : State} (h : Inv s) (op : Op)
 /-- element assignment is always refused -/
 theorem setitem_rejected (s : State) : step fixed s .setitem = (s, some .valueError) := rfl
 
+theorem two_of_diff {vals : List Int} {d : Int} {ds : List Int} (h : diff vals = d :: ds) :
+    ∃ x y rest, vals = x :: y :: rest := by
+  match vals, h with
+  | [], h => simp [diff] at h
+  | [_], h => simp [diff] at h
+  | x :: y :: rest, _ => exact ⟨x, y, rest, rfl⟩
+
 /-- adding or subtracting a 1-d operand whose increments are not constant is refused (ValueError) -/
 theorem nonuniform_rejected (s : State) (r : Ramp) (d : Int) (ds : List Int)
-    (hd : diff (convRamp s.cur.unit r) = d :: ds) (hne : ∃ x ∈ ds, x ≠ d) :
+    (hd : diff (convRamp s.cur.unit s.cur.samples r) = d :: ds) (hne : ∃ x ∈ ds, x ≠ d) :
     step fixed s (.addR r) = (s, some .valueError) ∧ step fixed s (.subR r) = (s, some .valueError) := by
   have hr := rampStep_nonuniform hd hne
-  constructor <;> simp only [step, hr]
+  obtain ⟨x, y, rest, hv⟩ := two_of_diff hd
+  constructor <;> simp only [step, hv, rampDispatch, fixed, Bool.false_eq_true, if_false, rampOp] <;>
+    rw [hv] at hr <;> simp only [hr]
 
-/-- a uniform 1-d operand of the wrong length is refused and nothing changes -/
+/-- a uniform 1-d operand (two or more elements) of the wrong length is refused and nothing changes -/
 theorem wrong_length_rejected (s : State) (r : Ramp) (d : Int)
-    (hr : rampStep (convRamp s.cur.unit r) = .ok d)
-    (hl : (convRamp s.cur.unit r).length ≠ s.cur.samples.length) :
+    (hr : rampStep (convRamp s.cur.unit s.cur.samples r) = .ok d)
+    (hl : (convRamp s.cur.unit s.cur.samples r).length ≠ s.cur.samples.length) :
     step fixed s (.addR r) = (s, some .valueError) ∧ step fixed s (.subR r) = (s, some .valueError) := by
-  have hb : ((convRamp s.cur.unit r).length == s.cur.samples.length) = false := by simpa using hl
-  constructor <;> simp only [step, hr, shiftOp, fixed, Bool.false_eq_true, if_false, hb]
+  have h2 := (rampStep_ok hr).2
+  match hv : convRamp s.cur.unit s.cur.samples r, h2 with
+  | x :: y :: rest, _ =>
+    rw [hv] at hr hl
+    have hb : ((x :: y :: rest).length == s.cur.samples.length) = false := by simpa using hl
+    constructor <;>
+      simp only [step, hv, rampDispatch, rampOp, hr, shiftOp, fixed, Bool.false_eq_true, if_false, hb,
+        Bool.false_and]
+
+/-- the operand may be the axis itself (or a view of it): the result is that of adding its values -/
+theorem aliased_operand_by_value (s : State) :
+    step fixed s (.addR .self) = step fixed s (.addR (.time s.cur.samples)) ∧
+    step fixed s (.subR .self) = step fixed s (.subR (.time s.cur.samples)) := by
+  constructor <;> simp [step, convRamp, rampDispatch, rampOp, fixed, Ramp.aliased]
+
+/-- a 1-d operand with one element acts as the scalar shift by that element; an empty one is refused -/
+theorem one_element_operand_is_shift (s : State) (v : Int) :
+    step fixed s (.addR (.time [v])) = step fixed s (.addS (.time v)) ∧
+    step fixed s (.subR (.time [v])) = step fixed s (.subS (.time v)) ∧
+    step fixed s (.addR (.time [])) = (s, some .valueError) := by
+  refine ⟨rfl, rfl, rfl⟩
 
 /-- which operations are accepted: scalar shifts, copies, relabelling always; scaling by k ≠ 0;
 division when it is exact; slices with a non-zero step -/
@@ -543,46 +574,58 @@ theorem accepted_ops (s : State) :
   · intro k hk h0 h1; simp [step, fixed, hk, h0, h1]
   · intro a b c hc; simp [step, fixed, hc]
 
-/-- `lookup_after_ops` (state form): when the invariant holds and Δ > 0, looking up the i-th
-sample returns position i -/
-theorem lookup_of_inv {s : State} (h : Inv s) (hdt : 0 < sget s.store s.cur.dt) (i : Nat)
+/-- `lookup_after_ops` (state form): when the invariant holds and Δ ≠ 0 — increasing or decreasing
+axis — looking up the i-th sample returns position i -/
+theorem lookup_of_inv {s : State} (h : Inv s) (hdt : sget s.store s.cur.dt ≠ 0) (i : Nat)
     (hi : i < s.cur.samples.length) :
-    indexAt s.store s.cur (s.cur.samples.getD i 0) = .ok (i : Int) := by
+    indexAt fixed s.store s.cur (s.cur.samples.getD i 0) = .ok (i : Int) := by
   obtain ⟨_, _, _, hsam, hdur, _⟩ := h.1
   have hget : s.cur.samples.getD i 0 = sget s.store s.cur.t0 + (i : Int) * sget s.store s.cur.dt := by
     rw [hsam]; exact affine_getD _ _ _ _ hi
   rw [hget]
-  unfold indexAt
   have hi' : (i : Int) < (s.cur.samples.length : Int) := by exact_mod_cast hi
-  have h1 : 0 ≤ (i : Int) * sget s.store s.cur.dt := Int.mul_nonneg (Int.natCast_nonneg i) (le_of_lt hdt)
-  have h2 : (i : Int) * sget s.store s.cur.dt < (s.cur.samples.length : Int) * sget s.store s.cur.dt :=
-    Int.mul_lt_mul_of_pos_right hi' hdt
-  have hcond : ¬ (sget s.store s.cur.t0 + (i : Int) * sget s.store s.cur.dt < sget s.store s.cur.t0 ∨
-      sget s.store s.cur.t0 + (i : Int) * sget s.store s.cur.dt ≥ sget s.store s.cur.t0 + sget s.store s.cur.dur) := by
-    rw [hdur]; omega
-  simp only [hcond, if_false]
-  congr 1
-  have : sget s.store s.cur.t0 + (i : Int) * sget s.store s.cur.dt - sget s.store s.cur.t0
+  have hsub : sget s.store s.cur.t0 + (i : Int) * sget s.store s.cur.dt - sget s.store s.cur.t0
       = (i : Int) * sget s.store s.cur.dt := by ring
-  rw [this, Int.fdiv_eq_ediv_of_nonneg _ (le_of_lt hdt)]
-  exact Int.mul_ediv_cancel _ (ne_of_gt hdt)
+  have hq : Int.fdiv ((i : Int) * sget s.store s.cur.dt) (sget s.store s.cur.dt) = (i : Int) := by
+    rw [Int.fdiv_eq_ediv_of_dvd (Dvd.intro_left _ rfl)]
+    exact Int.mul_ediv_cancel _ hdt
+  simp only [indexAt, fixed, Bool.false_or, hdur]
+  rcases lt_or_gt_of_ne hdt with hneg | hpos
+  · -- decreasing axis: the span is (t0 + nΔ, t0]
+    have hnp : ¬ (0 < sget s.store s.cur.dt) := by omega
+    have h1 : (i : Int) * sget s.store s.cur.dt ≤ 0 :=
+      Int.mul_nonpos_of_nonneg_of_nonpos (Int.natCast_nonneg i) (le_of_lt hneg)
+    have h2 : (s.cur.samples.length : Int) * sget s.store s.cur.dt < (i : Int) * sget s.store s.cur.dt :=
+      Int.mul_lt_mul_of_neg_right hi' hneg
+    have hin : ¬ (sget s.store s.cur.t0 + (i : Int) * sget s.store s.cur.dt > sget s.store s.cur.t0 ∨
+        sget s.store s.cur.t0 + (i : Int) * sget s.store s.cur.dt
+          ≤ sget s.store s.cur.t0 + (s.cur.samples.length : Int) * sget s.store s.cur.dt) := by omega
+    simp only [hnp, decide_false, Bool.false_eq_true, if_false, hin, hsub, hq]
+  · have h1 : 0 ≤ (i : Int) * sget s.store s.cur.dt := Int.mul_nonneg (Int.natCast_nonneg i) (le_of_lt hpos)
+    have h2 : (i : Int) * sget s.store s.cur.dt < (s.cur.samples.length : Int) * sget s.store s.cur.dt :=
+      Int.mul_lt_mul_of_pos_right hi' hpos
+    have hin : ¬ (sget s.store s.cur.t0 + (i : Int) * sget s.store s.cur.dt < sget s.store s.cur.t0 ∨
+        sget s.store s.cur.t0 + (i : Int) * sget s.store s.cur.dt
+          ≥ sget s.store s.cur.t0 + (s.cur.samples.length : Int) * sget s.store s.cur.dt) := by omega
+    simp only [hpos, decide_true, if_true, hin, decide_false, Bool.false_eq_true, if_false, hsub, hq]
 
-/-- `lookup_after_ops`: after ANY history that leaves a positive sampling interval,
-`index_at(axis[i]) = i` for every position -/
-theorem lookup_after_ops (ops : List Op) {s : State} (h : Inv s)
-    (hdt : 0 < sget (run fixed ops s).store (run fixed ops s).cur.dt) (i : Nat)
-    (hi : i < (run fixed ops s).cur.samples.length) :
-    indexAt (run fixed ops s).store (run fixed ops s).cur ((run fixed ops s).cur.samples.getD i 0) = .ok (i : Int) :=
-  lookup_of_inv (run_inv ops h) hdt i hi
-
-/-- an instant before the first sample or at/after `t0 + n·Δ` is refused -/
-theorem lookup_refuses_outside {s : State} (h : Inv s) (t : Int)
-    (ht : t < sget s.store s.cur.t0 ∨
-          t ≥ sget s.store s.cur.t0 + (s.cur.samples.length : Int) * sget s.store s.cur.dt) :
-    indexAt s.store s.cur t = .error .valueError := by
-  unfold indexAt
-  rw [h.1.2.2.2.2.1]
-  simp only [ht, if_true]
+/-- an instant outside the span the axis covers is refused: before the first sample or at/after
+`t0 + n·Δ` on an increasing axis, after the first sample or at/before `t0 + n·Δ` on a decreasing one -/
+theorem lookup_refuses_outside {s : State} (h : Inv s) (t : Int) :
+    (0 < sget s.store s.cur.dt →
+      (t < sget s.store s.cur.t0 ∨ t ≥ sget s.store s.cur.t0 + (s.cur.samples.length : Int) * sget s.store s.cur.dt) →
+      indexAt fixed s.store s.cur t = .error .valueError) ∧
+    (sget s.store s.cur.dt < 0 →
+      (t > sget s.store s.cur.t0 ∨ t ≤ sget s.store s.cur.t0 + (s.cur.samples.length : Int) * sget s.store s.cur.dt) →
+      indexAt fixed s.store s.cur t = .error .valueError) := by
+  have hdur := h.1.2.2.2.2.1
+  constructor
+  · intro hpos ht
+    simp only [indexAt, fixed, Bool.false_or, hdur, hpos, decide_true, if_true, ht]
+  · intro hneg ht
+    have hnp : ¬ (0 < sget s.store s.cur.dt) := by omega
+    simp only [indexAt, fixed, Bool.false_or, hdur, hnp, decide_false, Bool.false_eq_true, if_false, ht, decide_true,
+      if_true]
 
 /-- the originals of earlier copies are untouched by any operation on the current axis: they stay
 in the state and every attribute object they point to keeps its value (samples, unit and rate
@@ -613,29 +656,26 @@ theorem collapses_false_ne {dt dd : Int} (h : collapses dt dd = false) (hdt : dt
   · subst h; simpa using hdt
   · exact h
 
+theorem absRamp_dt_ne_zero (a : Abs) (sgn : Int) (vals : List Int) (h : a.dt ≠ 0) :
+    (absRamp a sgn vals).dt ≠ 0 := by
+  match vals with
+  | [] => exact h
+  | [v] => exact h
+  | x :: y :: rest =>
+    simp only [absRamp]
+    split
+    · split_ifs with h1 h2
+      · exact h
+      · exact collapses_false_ne (by simpa using h2) h
+      · exact h
+    · exact h
+
 theorem absStep_dt_ne_zero (a : Abs) (op : Op) (h : a.dt ≠ 0) : (absStep a op).dt ≠ 0 := by
   cases op with
   | addS v => exact h
   | subS v => exact h
-  | addR r =>
-    simp only [absStep]
-    split
-    · split_ifs with h1 h2
-      · exact h
-      · have := collapses_false_ne (by simpa using h2) h
-        simpa using this
-      · exact h
-    · exact h
-  | subR r =>
-    simp only [absStep]
-    split
-    · split_ifs with h1 h2
-      · exact h
-      · have := collapses_false_ne (by simpa using h2) h
-        show a.dt - _ ≠ 0
-        intro h0; apply this; omega
-      · exact h
-    · exact h
+  | addR r => exact absRamp_dt_ne_zero _ _ _ h
+  | subR r => exact absRamp_dt_ne_zero _ _ _ h
   | mul k =>
     simp only [absStep]
     split_ifs with hk
@@ -681,23 +721,37 @@ theorem run_rate_describes (ops : List Op) {s : State} (h : Inv s) (h0 : sget s.
     ∃ u, (run fixed ops s).cur.rate = rateOf u (sget (run fixed ops s).store (run fixed ops s).cur.dt) :=
   (run_inv ops h).1.2.2.2.2.2 (run_interval_nonzero ops h h0)
 
+/-- `lookup_after_ops`: after ANY history, on an increasing or a decreasing axis (reversed slice,
+scaling by a negative number), `index_at(axis[i]) = i` for every position -/
+theorem lookup_after_ops (ops : List Op) {s : State} (h : Inv s) (h0 : sget s.store s.cur.dt ≠ 0) (i : Nat)
+    (hi : i < (run fixed ops s).cur.samples.length) :
+    indexAt fixed (run fixed ops s).store (run fixed ops s).cur ((run fixed ops s).cur.samples.getD i 0)
+      = .ok (i : Int) :=
+  lookup_of_inv (run_inv ops h) (run_interval_nonzero ops h h0) i hi
+
 /-- a ramp whose step cancels the interval is refused and nothing changes -/
 theorem collapse_rejected (s : State) (r : Ramp) (d : Int)
-    (hr : rampStep (convRamp s.cur.unit r) = .ok d)
-    (hl : (convRamp s.cur.unit r).length = s.cur.samples.length) (hd : d ≠ 0) :
+    (hr : rampStep (convRamp s.cur.unit s.cur.samples r) = .ok d)
+    (hl : (convRamp s.cur.unit s.cur.samples r).length = s.cur.samples.length) (hd : d ≠ 0) :
     (sget s.store s.cur.dt + d = 0 → step fixed s (.addR r) = (s, some .valueError)) ∧
     (sget s.store s.cur.dt - d = 0 → step fixed s (.subR r) = (s, some .valueError)) := by
-  have hb : ((convRamp s.cur.unit r).length == s.cur.samples.length) = true := by simpa using hl
-  constructor
-  · intro h0
-    have hc : collapses (sget s.store s.cur.dt) (1 * d) = true := by
-      simp [collapses, hd, h0]
-    simp only [step, hr, shiftOp, fixed, Bool.false_eq_true, if_false, hb, if_true, hc]
-  · intro h0
-    have hc : collapses (sget s.store s.cur.dt) (-1 * d) = true := by
-      simp only [collapses, Bool.and_eq_true, bne_iff_ne, beq_iff_eq]
-      constructor <;> omega
-    simp only [step, hr, shiftOp, fixed, Bool.false_eq_true, if_false, hb, if_true, hc]
+  have h2 := (rampStep_ok hr).2
+  match hv : convRamp s.cur.unit s.cur.samples r, h2 with
+  | x :: y :: rest, _ =>
+    rw [hv] at hr hl
+    have hb : ((x :: y :: rest).length == s.cur.samples.length) = true := by simpa using hl
+    constructor
+    · intro h0
+      have hc : collapses (sget s.store s.cur.dt) (1 * d) = true := by
+        simp [collapses, hd, h0]
+      simp only [step, hv, rampDispatch, rampOp, hr, shiftOp, fixed, Bool.false_eq_true, if_false, hb, if_true, hc,
+        Bool.false_and]
+    · intro h0
+      have hc : collapses (sget s.store s.cur.dt) (-1 * d) = true := by
+        simp only [collapses, Bool.and_eq_true, bne_iff_ne, beq_iff_eq]
+        constructor <;> omega
+      simp only [step, hv, rampDispatch, rampOp, hr, shiftOp, fixed, Bool.false_eq_true, if_false, hb, if_true, hc,
+        Bool.false_and]
 
 /-! ### non-vacuity -/
 /-- a concrete history through every kind of operation (ms axis, t0 = 1 ms, Δ = 2 ms, n = 4) -/
@@ -767,6 +821,25 @@ theorem current_failed_op_counterexample :
 /-- lookups go wrong after `+= 3` in the unrepaired model: the last sample is refused -/
 theorem current_lookup_counterexample :
     let s := (step current ax0 (.addS (.int 3))).1
-    indexAt s.store s.cur 10 = .error .valueError ∧ indexAt s.store s.cur 4 = .ok 1 := by decide
+    indexAt current s.store s.cur 10 = .error .valueError ∧ indexAt current s.store s.cur 4 = .ok 1 := by decide
+
+/-! ### /repo after the first eight repairs (`head8`) still broke three clauses -/
+/-- `t += t` (the operand is the axis itself): samples 2,6,10,14 but t0 = 3 (the shift was read
+after the in-place addition: 1 + 2·1) -/
+theorem head8_aliased_counterexample :
+    let s := (step head8 ax0 (.addR .self)).1
+    s.cur.samples = [2, 6, 10, 14] ∧ sget s.store s.cur.t0 = 3 ∧
+    sget (step fixed ax0 (.addR .self)).1.store (step fixed ax0 (.addR .self)).1.cur.t0 = 2 := by decide
+
+/-- a 1-d operand with one element died in `dv[0]` (IndexError) instead of shifting -/
+theorem head8_one_element_counterexample :
+    (step head8 ax0 (.addR (.ints [5]))).2 = some .indexError ∧
+    (step fixed ax0 (.addR (.ints [5]))).1.cur.samples = [6, 8, 10, 12] := by decide
+
+/-- on the reversed axis `[::-1]` (7,5,3,1; Δ = −2) every lookup was refused -/
+theorem head8_negative_interval_counterexample :
+    let s := (step head8 ax0 (.slice none none (-1))).1
+    s.cur.samples = [7, 5, 3, 1] ∧ sget s.store s.cur.dt = -2 ∧
+    indexAt head8 s.store s.cur 5 = .error .valueError ∧ indexAt fixed s.store s.cur 5 = .ok 1 := by decide
 
 end Nitime.C17.Props
